@@ -55,7 +55,12 @@ impl Sink {
         let _ = writeln!(self.inputs, "{} {}", self.stream, input);
         let _ = writeln!(self.outputs, "{}", out);
         self.evaluations += 1;
-        let kind = out.split(' ').next().unwrap_or("").to_string();
+        let first = out.split(' ').next().unwrap_or("");
+        let kind = if first.chars().all(|c| c.is_ascii_alphabetic() || c == '-' || c == '_') && !first.is_empty() && first != "x" {
+            first.to_string()
+        } else {
+            "value".to_string()
+        };
         self.bump(&format!("result:{}", kind));
         if let Some(c) = class {
             if self.classes.insert(c) && self.samples.len() < 6 {
